@@ -19,8 +19,9 @@ class Case:
         self.is_co = self.comb.startswith("co:")
         if self.is_co:
             # ID co:<stack>:<term> take=.. lim=.. n=.. scripts
-            self.take = None if hp[2] == "take=-" else int(hp[2][5:])
-            self.lim = None if hp[3] == "lim=-" else int(hp[3][4:])
+            # an adapter applied twice lists both arguments, the one nearer the source first: the smaller take and the outer limit are in force
+            self.take = None if hp[2] == "take=-" else min(int(x) for x in hp[2][5:].split(","))
+            self.lim = None if hp[3] == "lim=-" else int(hp[3][4:].split(",")[-1])
             self.n = int(hp[4][2:])
             sc = hp[5] if len(hp) > 5 else ""
             _, self.stack, self.term = self.comb.split(":")
